@@ -65,6 +65,7 @@ struct State
   std::set<int> captured;
   int hangWaitMs = 3000;
   std::map<int, long> capRecv, capSend;
+  std::map<int, long> sendBudget;
 };
 
 State &S()
@@ -173,6 +174,7 @@ void reset()
   s.hangWaitMs = 3000;
   s.capRecv.clear();
   s.capSend.clear();
+  s.sendBudget.clear();
 }
 
 void virtual_time(bool on) { Guard g(S().mtx); S().virt = on; }
@@ -233,6 +235,11 @@ void cap(std::string const &sys, int fd, long k)
   Guard g(S().mtx);
   auto &m = (sys == "send") ? S().capSend : S().capRecv;
   if(k > 0) m[fd] = k; else m.erase(fd);
+}
+void budget(int fd, long n)
+{
+  Guard g(S().mtx);
+  if(n >= 0) S().sendBudget[fd] = n; else S().sendBudget.erase(fd);
 }
 void log_note(std::string const &line) { Guard g(S().mtx); logLine(line); }
 void hang_wait_ms(int ms) { Guard g(S().mtx); S().hangWaitMs = ms; }
@@ -368,6 +375,17 @@ ssize_t send(int fd, void const *buf, size_t len, int flags)
       auto c = s.capSend.find(fd);
       if(c != s.capSend.end()) { have = true; d = Directive{"send", fd, "short", c->second}; }
     }
+    if(!inject) {
+      auto b = s.sendBudget.find(fd);
+      if(b != s.sendBudget.end()) {
+        if(b->second <= 0) { have = true; d = Directive{"send", fd, "eagain", 0}; }
+        else if(!have || d.kind == "short") {
+          long k = (have && d.arg < b->second) ? d.arg : b->second;
+          have = true;
+          d = Directive{"send", fd, "short", k};
+        }
+      }
+    }
   }
   ssize_t r;
   int err = 0;
@@ -384,6 +402,10 @@ ssize_t send(int fd, void const *buf, size_t len, int flags)
     Guard g(s.mtx);
     logLine("send " + who + " len=" + std::to_string(len) + " nosignal=" + ((flags & MSG_NOSIGNAL) ? "1" : "0") + " " + how + " -> " + resStr(r, err));
     if(r > 0 && s.captured.count(fd)) s.captures[fd].append(static_cast<char const *>(buf), static_cast<size_t>(r));
+    if(r > 0) {
+      auto b = s.sendBudget.find(fd);
+      if(b != s.sendBudget.end()) b->second -= r;
+    }
   }
   if(r < 0) errno = err;
   return r;
